@@ -3,6 +3,7 @@ package props
 import (
 	"go/token"
 	"go/types"
+	"strings"
 
 	"godcheck/core"
 
@@ -148,4 +149,180 @@ func c11ErrVarStore(p *core.Prog, in ssa.Instruction) (*ssa.Store, bool) {
 		return nil, false
 	}
 	return st, true
+}
+
+// c11IsBodyCall matches a call of the transaction body: a call of a function-typed parameter
+// func(context.Context, Session) error.
+func c11IsBodyCall() func(ssa.Instruction) bool {
+	return core.CallOfValue(func(v ssa.Value) bool {
+		pa, ok := core.Strip(core.Forward(core.Strip(v))).(*ssa.Parameter)
+		if !ok {
+			return false
+		}
+		sig, ok := pa.Type().Underlying().(*types.Signature)
+		return ok && sig.Params().Len() == 2 && sig.Results().Len() == 1 && strings.HasSuffix(sig.Params().At(1).Type().String(), "sqlx.Session")
+	})
+}
+
+func c11Because(why []string) string {
+	if len(why) == 0 {
+		return ""
+	}
+	return " (" + strings.Join(why, "; ") + ")"
+}
+
+// c11BodyReturned builds the atom "the transaction body returned normally" for the finaliser fin.
+//
+// The only thing that tells a finished body from one that panicked with nil or left through
+// runtime.Goexit is a flag of the runner: a bool variable captured by the finaliser
+//   - that the function creating the finaliser writes with constants only,
+//   - whose "finished" value c is stored only after a call of the body has returned (no store of c is
+//     reachable from the runner's entry without passing a body call), and on every path from such a
+//     call to the runner's return,
+//   - that holds !c before (stored before the body call, or the zero value when c is true),
+//   - and that nothing else writes (closures capturing it only read it; its address goes nowhere else).
+//
+// A load of the flag inside the finaliser, compared with c in any spelling, is the atom. n is the
+// number of flags that qualify; why says, for every captured bool that does not, what is wrong with it.
+func c11BodyReturned(p *core.Prog, fin *ssa.Function) (atom core.Atom, n int, why []string) {
+	var atoms []core.Atom
+	for idx, fv := range fin.FreeVars {
+		pt, ok := fv.Type().(*types.Pointer)
+		if !ok {
+			continue
+		}
+		if b, ok := pt.Elem().Underlying().(*types.Basic); !ok || b.Kind() != types.Bool {
+			continue
+		}
+		if !c11OnlyLoaded(fv) {
+			why = append(why, "the finaliser itself writes the captured flag "+fv.Name())
+			continue
+		}
+		sites, good := 0, true
+		finishedVal := false
+		for _, g := range p.PkgFuncs(sqlx) {
+			for _, b := range g.Blocks {
+				for _, in := range b.Instrs {
+					mc, ok := in.(*ssa.MakeClosure)
+					if !ok || mc.Fn != ssa.Value(fin) || idx >= len(mc.Bindings) {
+						continue
+					}
+					sites++
+					c, reason := c11FinishedFlag(g, mc.Bindings[idx])
+					if reason != "" {
+						good = false
+						why = append(why, "flag "+fv.Name()+": "+reason)
+						continue
+					}
+					if sites > 1 && c != finishedVal {
+						good = false
+						why = append(why, "flag "+fv.Name()+" means different things at different creation sites of the finaliser")
+					}
+					finishedVal = c
+				}
+			}
+		}
+		if sites == 0 || !good {
+			continue
+		}
+		fv := fv
+		a := core.BoolVal(func(v ssa.Value) bool {
+			u, ok := v.(*ssa.UnOp)
+			return ok && u.Op == token.MUL && u.X == ssa.Value(fv)
+		})
+		if !finishedVal {
+			a = core.Not(a)
+		}
+		atoms = append(atoms, a)
+	}
+	if len(atoms) == 0 {
+		if len(why) == 0 {
+			why = append(why, "it captures no bool variable of the runner; recover()!=nil is nil for panic(nil) and runtime.Goexit")
+		}
+		return func(ssa.Value) (bool, bool) { return false, false }, 0, why
+	}
+	return core.AnyOf(atoms...), len(atoms), why
+}
+
+// c11FinishedFlag checks the discipline of one flag cell in the function g that creates the
+// finaliser; it returns the constant that means "the body returned" or a reason.
+func c11FinishedFlag(g *ssa.Function, cell ssa.Value) (finished bool, reason string) {
+	al, ok := cell.(*ssa.Alloc)
+	if !ok || al.Referrers() == nil {
+		return false, "its binding is not a local variable of " + core.FuncName(g)
+	}
+	isBody := c11IsBodyCall()
+	bodies := core.Instrs(g, isBody)
+	if len(bodies) == 0 {
+		return false, core.FuncName(g) + " never calls the transaction body"
+	}
+	var pre, post []*ssa.Store
+	for _, r := range *al.Referrers() {
+		switch y := r.(type) {
+		case *ssa.Store:
+			if y.Addr != ssa.Value(al) {
+				return false, "its address is stored elsewhere"
+			}
+			if _, isConst := y.Val.(*ssa.Const); !isConst {
+				return false, "it is written with a computed value"
+			}
+			if _, early := core.Reach(core.Q{From: []core.At{core.Entry(g)}, Target: core.Is(y), Blocked: isBody}); early {
+				pre = append(pre, y)
+			} else {
+				post = append(post, y)
+			}
+		case *ssa.UnOp:
+			if y.Op != token.MUL {
+				return false, "it is used in an unexpected way"
+			}
+		case *ssa.MakeClosure:
+			fn, ok := y.Fn.(*ssa.Function)
+			if !ok {
+				return false, "it is captured by an unknown closure"
+			}
+			for i, b := range y.Bindings {
+				if b == ssa.Value(al) && (i >= len(fn.FreeVars) || !c11OnlyLoaded(fn.FreeVars[i])) {
+					return false, "a closure capturing it does more than read it"
+				}
+			}
+		case *ssa.DebugRef:
+		default:
+			return false, "its address escapes"
+		}
+	}
+	constBool := func(st *ssa.Store) bool {
+		c := st.Val.(*ssa.Const)
+		return c.Value != nil && c.Value.String() == "true"
+	}
+	if len(post) == 0 {
+		return false, "it is never set after the body call returned (it cannot tell a finished body from an aborted one)"
+	}
+	finished = constBool(post[0])
+	for _, st := range post {
+		if constBool(st) != finished {
+			return false, "it is set to both values after the body call"
+		}
+	}
+	if len(pre) == 0 && !finished {
+		return false, "it holds false before and after the body call"
+	}
+	for _, st := range pre {
+		if constBool(st) == finished {
+			return false, "it already holds its 'body returned' value before the body is called: a body that panics or exits looks finished"
+		}
+	}
+	isPost := func(in ssa.Instruction) bool {
+		for _, st := range post {
+			if in == ssa.Instruction(st) {
+				return true
+			}
+		}
+		return false
+	}
+	for _, b := range bodies {
+		if w := core.MustPass(core.After(b), isPost, core.IsReturn); w != nil {
+			return false, "a path on which the body returned leaves " + core.FuncName(g) + " without setting it: a returned body is treated as a panic"
+		}
+	}
+	return finished, ""
 }
